@@ -659,9 +659,9 @@ func genLLC(v *Vector, r *rand.Rand, k int) []*Case {
 	default:
 		b = []byte{0x06, 0x06}
 	}
-	b = append(b, byte(num(e, "ctl")))
-	b = append(b, randBytes(r, 40)...)
 	n := num(e, "len")
+	b = append(b, byte(num(e, "ctl")))
+	b = append(b, randBytes(r, n)...)
 	b = b[:n]
 	fr := vh.Ether(net.HardwareAddr{0x01, 0x80, 0xc2, 0, 0, 0}, cliMAC, uint16(n), b)
 	return []*Case{{Entry: "H.8023", Group: "all", Payload: b, Frame: fr, Run: runFrame, wrap: wrapInfo{kind: wrapEther, smac: cliMAC, dmac: vh.Bcast, etype: uint16(n)}}}
